@@ -126,7 +126,8 @@ class H:
         self.val = {}
         self.occ = Counter()
         self.fault = None  # (cbid, occ)
-        self.fault_kind = "boom"  # boom | tna | value
+        self.fault_kind = "boom"  # boom | tna | value | key | attr
+        self.guard_fault = None  # cbid of a guard that raises when it is evaluated
         self.raised = []
         self.sends, self.rets, self.yields = {}, {}, {}
         for c in spec["cbs"]:  # several defs may share one cbid (same function attached to several groups): first wins
@@ -196,8 +197,8 @@ def _make_action(cbid0, group, is_async, free):
                 # a callback may raise the library's own exception (e.g. it forwards an event to another strict machine)
                 exc = TransitionNotAllowed(event, state)
                 exc.cbid, exc.occ = cbid, occ
-            elif kind == "value":
-                exc = ValueError(f"{cbid}#{occ}")
+            elif kind in ("value", "key", "attr", "stop"):
+                exc = {"value": ValueError, "key": KeyError, "attr": AttributeError, "stop": StopIteration}[kind](f"{cbid}#{occ}")
                 exc.cbid, exc.occ = cbid, occ
             else:
                 exc = Boom(cbid, occ)
@@ -267,12 +268,21 @@ def _make_action(cbid0, group, is_async, free):
     return cb
 
 
+def _guard_fault(Hh, cbid):
+    if Hh.guard_fault == cbid:
+        Hh.log.append(("X", cbid, -1))
+        exc = Boom(cbid, -1)
+        Hh.raised.append(exc)
+        raise exc
+
+
 def make_guard(cbid0, kind, is_async):
     if kind == "property":
 
         def fget(self):
             cbid = _resolve(cbid0, self)
             self.H.log.append(("G", cbid))
+            _guard_fault(self.H, cbid)
             return self.H.val.get(cbid, False)
 
         return property(fget)
@@ -282,6 +292,7 @@ def make_guard(cbid0, kind, is_async):
             cbid = _resolve(cbid0, self)
             Hh = machine.H
             Hh.log.append(("G", cbid, "b"))
+            _guard_fault(Hh, cbid)
             for _ in range(Hh.guard_yields.get(cbid, 0)):
                 await asyncio.sleep(0)
             Hh.log.append(("G", cbid, "e"))  # a coroutine guard must have ended before any later phase starts
@@ -291,6 +302,7 @@ def make_guard(cbid0, kind, is_async):
         def g(self, *args, machine, **kwargs):
             cbid = _resolve(cbid0, self)
             machine.H.log.append(("G", cbid))
+            _guard_fault(machine.H, cbid)
             return machine.H.val.get(cbid, False)
 
     return g
@@ -642,6 +654,7 @@ class Interp:
         self.occ = Counter()
         self.val = {}
         self.fault = None
+        self.guard_fault = None
         self.stragglers = {}
         self.toks = []
         self.pos = 0
@@ -804,7 +817,20 @@ class Interp:
             ctx = dict(event=ev, state=self.sid(src), source=self.sid(src), target=self.sid(t["dst"]), args=args, kw=kwargs)
             self.last_failed_transition = (k, "pre")
             self.run_group(self.group_cbs("validators", k, ev, None), ctx, "validators")
-            self.consume_guards(self.guard_cbids(t))
+            gset = self.guard_cbids(t)
+            if self.guard_fault in gset and len(gset) == 1 and len(t.get("cond", [])) + len(t.get("unless", [])) == 1:
+                # the only guard of this candidate raises when evaluated: the exception aborts the event, state unchanged
+                tok = self.peek()
+                if tok is None or tok[0] != "G" or tok[1] != self.guard_fault:
+                    raise Mismatch("guard-not-evaluated", f"guard {self.guard_fault} of the candidate was not evaluated (next record {tok!r})", self.pos)
+                self.advance()
+                tok = self.peek()
+                if tok is None or tok[0] != "X" or tok[1] != self.guard_fault:
+                    raise HarnessError(f"guard {self.guard_fault} should have raised, next record {tok!r}")
+                self.advance()
+                self.stats["guard_faults"] += 1
+                raise ExpBoom(self.guard_fault, -1)
+            self.consume_guards(gset)
             if not self.guard_holds(t):
                 self.stats["rejected_candidates"] += 1
                 continue
